@@ -23,7 +23,7 @@ int main(int argc, char **argv) {
         e.rule = "one run = one seeded plan: tunnel mode (TSCF/NTSCF x raw/UDP x classic/FD, stratified by run index), frames-per-packet, a sequence of "
                  "CAN frames injected on bus A at seeded instants, scheduler policy, latencies and (odd strata) drop/dup/delay/stall faults; "
                  "distinct = distinct event-log digest; non-trivial = the listener received at least one datagram carrying CAN frames";
-        e.probes = {"probe.multi_frame_packet", "probe.listener_parsed_multi_acf", "fault.drop", "fault.dup", "fault.delay", "fault.stall"};
+        e.probes = {"probe.multi_frame_packet", "probe.listener_parsed_multi_acf", "fault.drop", "fault.dup", "fault.delay", "fault.stall", "fault.ethpad", "fault.can_read0"};
         e.assumptions = {"simos models Linux socket/CAN/timerfd semantics as described in DESIGN.md section 4",
                          "only well-formed frames a CAN controller can deliver are generated (no error frames, FDF set on FD frames)"};
         e.quick_runs = 36000;
